@@ -324,6 +324,9 @@ def rand_block(rnd, kind, body_total):
     regular = []
     for _ in range(rnd.choice((0, 1, 1, 2, 3))):
         regular.append((rand_token(rnd, True), rand_value(rnd, True)))
+    if kind == "trailers" and rnd.random() < 0.4:
+        # trailers that mention a content-length themselves (the real size of the body, or something near it): they declare nothing
+        regular.append((b"content-length", str(max(0, body_total + rnd.choice((0, 0, 0, 1, -1)))).encode()))
     if kind in ("request", "response") and rnd.random() < 0.6:
         for _ in range(rnd.choice((1, 1, 1, 2))):
             v = rnd.choice(CL_SPELL) if rnd.random() < 0.5 else str(max(0, body_total + rnd.choice((0, 0, 0, 1, -1, 10)))).encode()
@@ -373,7 +376,7 @@ def rand_scenario(rnd):
     if role == "client" and chan == "request" and rnd.random() < 0.1:      # a promise after the response
         frames.append({"t": "P", "hs": rand_block(rnd, "push", 0), "n": 0})
     if rnd.random() < 0.35:
-        frames.append({"t": "H", "hs": rand_block(rnd, "trailers", 0), "n": 0})
+        frames.append({"t": "H", "hs": rand_block(rnd, "trailers", total), "n": 0})
     return {"role": role, "chan": chan, "frames": frames, "fin": rnd.choice(("none", "last", "last", "lone", "lone"))}
 
 
